@@ -1248,6 +1248,84 @@ Proof.
   end.
 Qed.
 
+(* ================================================================== UnicodeFormat, Utf16Format (enc.go) *)
+(* a loop over the index i of src whose model is a fuelled recursion over the rest of the input: where the model yields a
+   result, the generated loop (followed by K) yields the same.  ST packs (what was written, f — dead at the start of an
+   iteration —, i); one iteration is given only where the model's step succeeds. *)
+Lemma rune_while {St R} (ST : list Z -> Z -> nat -> St) (c : St -> M bool) (b : St -> M (ctl St R)) (p : St -> M St)
+    (K : St + R -> M (list Z)) (src : list Z)
+    (step : list Z -> list Z -> option (nat * list Z)) (go : nat -> list Z -> list Z -> option (list Z)) (fin : list Z -> list Z) :
+  (forall s out, go 0%nat s out = None) ->
+  (forall fu s out, go (S fu) s out =
+     match s with [] => Some (fin out) | _ :: _ => match step s out with None => None | Some (size, out') => go fu (skipn size s) out' end end) ->
+  (forall k out f0 size out', (k < length src)%nat -> step (skipn k src) out = Some (size, out') ->
+     exists f1, iter1 c b p (ST out f0 k) = Ret (inl (ST out' f1 (k + size)%nat))) ->
+  (forall k out f0, (length src <= k)%nat -> iter1 c b p (ST out f0 k) = Ret (inr (inl (ST out f0 k)))) ->
+  (forall out f0 k, K (inl (ST out f0 k)) = Ret (fin out)) ->
+  forall fuel k out f0 B, go fuel (skipn k src) out = Some B -> bind (while fuel c b p (ST out f0 k)) K = Ret B.
+Proof.
+  intros HO HS Hstep Hend HK. induction fuel as [|fuel IH]; intros k out f0 B Hgo; [rewrite HO in Hgo; discriminate|].
+  rewrite while_iter. rewrite HS in Hgo.
+  destruct (Nat.le_gt_cases (length src) k) as [Hge|Hlt].
+  - rewrite skipn_all2 in Hgo by exact Hge. injection Hgo as <-. rewrite Hend by exact Hge. cbn [bind]. apply HK.
+  - destruct (skipn k src) as [|x t] eqn:Es; [exfalso; apply (f_equal (@length Z)) in Es; rewrite skipn_length in Es; cbn [length] in Es; lia|].
+    rewrite <- Es in Hgo. destruct (step (skipn k src) out) as [[size out']|] eqn:Est; [|discriminate].
+    destruct (Hstep k out f0 size out' Hlt Est) as [f1 E]. rewrite E. cbn [bind].
+    apply IH. rewrite <- skipn_skipn. exact Hgo.
+Qed.
+
+Lemma m_slice_suffix (l : list Z) a k : a = Z.of_nat k -> (k <= length l)%nat -> m_slice l a (zlen l) = Ret (skipn k l).
+Proof.
+  intros -> H. rewrite m_slice_in by (unfold zlen; lia). unfold zlen. rewrite !Nat2Z.id.
+  rewrite firstn_all2 by (rewrite skipn_length; lia). reflexivity.
+Qed.
+Lemma m_copy_pad cap out a b lit : a = Z.of_nat (length out) -> b = a + Z.of_nat (length lit) -> (length out + length lit <= cap)%nat ->
+  m_copy (pad_to cap out) a b lit = Ret (pad_to cap (out ++ lit), Z.of_nat (length lit)).
+Proof.
+  intros -> -> H. rewrite m_copy_in by (unfold zlen; rewrite ?pad_length by lia; lia). rewrite Nat2Z.id.
+  replace (Z.to_nat (Z.of_nat (length out) + Z.of_nat (length lit))) with (length out + length lit)%nat by lia.
+  replace (length out + length lit - length out)%nat with (length lit) by lia.
+  unfold pad_to at 1 2 3. rewrite firstn_app, firstn_all, Nat.sub_diag. cbn [firstn]. rewrite app_nil_r.
+  rewrite skipn_app, skipn_all, Nat.sub_diag. cbn [skipn app]. rewrite firstn_repeat by lia.
+  rewrite gocopy_same by (rewrite repeat_length; reflexivity).
+  f_equal. f_equal.
+  - unfold pad_to. rewrite <- app_assoc. f_equal. f_equal.
+    rewrite skipn_app, skipn_all2 by lia. cbn [app]. rewrite skipn_repeat, app_length. f_equal. lia.
+  - rewrite firstn_length, skipn_length, pad_length by lia. f_equal. lia.
+Qed.
+Lemma decode_width_pos b t c w : Utf8.decode (b :: t) = (c, w) -> (1 <= w)%nat.
+Proof.
+  unfold Utf8.decode. intros H.
+  repeat match type of H with
+  | context [if ?x then _ else _] => destruct x
+  | context [match ?l with [] => _ | _ :: _ => _ end] => destruct l
+  end; injection H as _ <-; lia.
+Qed.
+
+(* one rune of UnicodeFormat's model *)
+Definition uf_step (cap : nat) (s out : list Z) : option (nat * list Z) :=
+  match s with
+  | [] => None
+  | bt :: t =>
+      if (length out + 10 <=? cap)%nat then
+        if bt <? RuneSelf then
+          match append_uint 8 bt 16 with None => None | Some d => Some (1%nat, out ++ 92 :: 85 :: to_upper d) end
+        else
+          let (c, size) := Utf8.decode s in
+          if c =? Utf8.RuneError then Some (size, out ++ 92 :: 85 :: FFFD8)
+          else match append_uint 8 c 16 with None => None | Some d => Some (size, out ++ 92 :: 85 :: to_upper d) end
+      else None
+  end.
+Lemma unicode_go_step fu cap s out :
+  unicode_format_go (S fu) cap s out =
+  match s with [] => Some (pad_to cap out) | _ :: _ => match uf_step cap s out with None => None | Some (size, out') => unicode_format_go fu cap (skipn size s) out' end end.
+Proof.
+  rewrite unicode_format_go_S. destruct s as [|bt t]; [reflexivity|]. unfold uf_step.
+  destruct (length out + 10 <=? cap)%nat; [|reflexivity]. destruct (bt <? RuneSelf).
+  - destruct (append_uint 8 bt 16); reflexivity.
+  - destruct (Utf8.decode (bt :: t)) as [c size]. destruct (c =? Utf8.RuneError); [reflexivity|]. destruct (append_uint 8 c 16); reflexivity.
+Qed.
+
 (* ================================================================== the case interpreter through the generated code *)
 Lemma all_bytes_bytes s : all_bytes s = true -> bytes s.
 Proof.
